@@ -445,3 +445,99 @@ Proof.
     rewrite (Hhas He1) in E. cbn [orb negb p_when] in E.
     destruct (Hs1 He1) as (Hok1 & _ & _). exact (rl_err_run _ _ _ Hok1 E He2).
 Qed.
+
+(* ------------------------------------------------------------------ selection_set *)
+Lemma rl_gen_selection_set f : rl_gen (g_selection_set f).
+Proof. split; [apply (gg_selection_set CT CT_ok)|apply (gg_selection_set CX CX_ok)]. Qed.
+
+Lemma rgl_selset_f_SS m d r :
+  rgl_selset_f LP (S (S m)) ((TkLCurly, d) :: r) = rg_seq (rgl_selections_f LP (S m)) (rg_sat (rg_is TkRCurly)) r.
+Proof. reflexivity. Qed.
+
+Lemma rl_selection_set_body ss f : (forall m, rl_ss_spec ss m) ->
+  forall M, rl_ss_spec (g_selection_set_body ss f) M.
+Proof.
+  intros Hss M. assert (Hgss : rl_gen ss) by apply (Hss O).
+  split.
+  { destruct Hgss as [H1 H2]. split; [apply (gg_selection_set_body CT CT_ok ss H1)|apply (gg_selection_set_body CX CX_ok ss H2)]. }
+  intros s u s' E Hok Ht [Hlen Hst]. pose proof Hok as [Hinv Ha].
+  destruct (rl_inv_cur _ Hinv) as (t & Hc & Hi & _).
+  pose proof (rl_sigs_head _ _ Hinv Hc) as Hhead.
+  assert (Hk : tok_kind t = TkLCurly).
+  { rewrite Hhead in Hst. destruct (tkind_eqb (tok_kind t) TkEof); [contradiction|]. cbn in Hst.
+    destruct (tok_kind t); try discriminate; reflexivity. }
+  rewrite Hk in Hhead. cbn [tkind_eqb] in Hhead.
+  (* the fuel is at least 2 *)
+  destruct M as [|[|m]]; try (unfold rl_len_lt in Hlen; rewrite Hhead in Hlen; cbn [length] in Hlen; lia).
+  unfold g_selection_set_body in E. unfold p_bind at 1 in E. rewrite (peek_is_some TkLCurly t s Hc), Hk in E.
+  cbn [tkind_eqb p_when] in E.
+  eapply rl_node_post; [exact E|exact Hok|exact Ht|]. clear E. intros s1 s9 Hobs E [Hinv1 Ha1] Ht1.
+  assert (Hc1 : ps_cur s1 = Some t) by (destruct Hobs as (G & _); congruence).
+  assert (Hne : tok_kind t <> TkEof) by congruence.
+  apply bind_ok in E as (? & s2 & E2 & E).
+  destruct (rl_bump_run _ _ _ _ _ Hinv1 Hc1 Hne E2) as (Hinv2 & Hsig2 & He2 & Ha2 & Hr2).
+  rewrite Hk in Hsig2.
+  assert (Hhead1 : rl_sigs s1 = (TkLCurly, tok_data t) :: rl_sig (ps_items s)) by (rewrite (rl_obs_sigs _ _ Hobs); exact Hhead).
+  assert (Hok2 : rl_ok s2) by (split; [exact Hinv2|congruence]).
+  assert (Ht2 : tr_ok (ps_rec s2)) by congruence.
+  assert (Hlen2 : rl_len_le m (rl_sigs s2)).
+  { unfold rl_len_lt in Hlen. rewrite <- (rl_obs_sigs _ _ Hobs), Hsig2 in Hlen. cbn [length] in Hlen. unfold rl_len_le. lia. }
+  unfold rl_sound, rl_complete. rewrite Hsig2, rgl_selset_f_SS.
+  destruct (rl_rec_guard_split _ _ _ _ _ _ E Ht2) as
+    [(s4 & Hsbr & Ht4 & Hlt & E4)|(s4 & a & s5 & u5 & s6 & Hsbr & Ht4 & Hcur4 & Hlim4 & E5 & E6 & E7)].
+  - pose proof (rl_limit_err_run _ _ _ (rl_sbr_ok _ _ Hsbr Hok2) E4) as Hd. destruct Hsbr as (_ & _ & He4 & _). split.
+    + intros He. exfalso. apply Hd. congruence.
+    + intros Hr r _. exfalso. unfold rl_roomy in Hr. rewrite Hsig2 in Hr. cbn [rl_weight] in Hr. rewrite Hr2 in Hlt. lia.
+  - pose proof (rl_sbr_ok _ _ Hsbr Hok2) as Hok4. pose proof (rl_sbr_sigs _ _ Hsbr) as Hsig4.
+    assert (Hlen4 : rl_len_le m (rl_sigs s4)) by (rewrite Hsig4; exact Hlen2).
+    destruct (proj2 (rl_sim_selection ss m f (Hss m)) s4 a s5 E5 Hok4 Ht4 Hlen4) as [Hs5 Hc5].
+    destruct (rl_gen_run _ _ _ _ (rl_gen_selection_ ss f Hgss) E5 Ht4) as (Ht5 & Hcur5 & Hlim5 & Hx5).
+    destruct (rl_rec_decrement_run _ _ _ E6) as (Hsbr6 & Hcur6 & Hlim6).
+    pose proof (rl_sbr_sigs _ _ Hsbr6) as Hsig6.
+    pose proof Hsbr as (_ & _ & He4 & _). pose proof Hsbr6 as (_ & _ & He6 & _).
+    assert (Ht6 : tr_ok (ps_rec s6)).
+    { unfold tr_ok in *. destruct Ht5 as (A & B & C). unfold p_rec_decrement in E6.
+      destruct (ptracker_decrement (ps_rec s5)) eqn:Ed; try discriminate. injection E6 as _ <-. cbn.
+      destruct (decrement_spec _ _ Ed) as (D1 & D2 & D3). lia. }
+    destruct (rl_gen_run _ _ _ _ (rl_gen_expect TkRCurly SK_R_CURLY) E7 Ht6) as (Ht7 & _ & _ & Hx7).
+    unfold rl_sound, rl_complete in Hs5, Hc5. rewrite Hsig4 in Hs5, Hc5. rewrite He4 in Hs5, Hc5.
+    assert (Hx56 : rl_ext s5 s6) by (apply rl_ext_same; exact He6).
+    split.
+    + intros He. assert (He' : ps_errors s9 = ps_errors s2) by congruence.
+      assert (Hx26 : rl_ext s2 s6).
+      { eapply rl_ext_trans; [|exact Hx56]. destruct Hx5 as [n5 Hn5]. exists n5. congruence. }
+      destruct (rl_ext_split _ _ _ Hx26 Hx7 He') as [He26 He7].
+      assert (He5 : ps_errors s5 = ps_errors s2) by congruence.
+      destruct (Hs5 He5) as (Hok5 & [pre5 Hpre5] & Hq5).
+      pose proof (rl_sbr_ok _ _ Hsbr6 Hok5) as Hok6.
+      destruct (proj2 (rl_sim_expect TkRCurly SK_R_CURLY ltac:(discriminate)) s6 _ s9 E7 Hok6 Ht6 I) as [Hs7 _].
+      destruct (Hs7 He7) as (Hok9 & [pre7 Hpre7] & Hq7). rewrite Hsig6 in Hpre7, Hq7.
+      split; [exact Hok9|]. split.
+      * eexists (_ :: pre5 ++ pre7). cbn [app]. f_equal. rewrite Hpre5, Hpre7. apply app_assoc.
+      * unfold rg_seq at 1. rewrite Hq5. cbn [rg_bind]. exact Hq7.
+    + intros Hr r Hq. unfold rg_seq at 1 in Hq.
+      destruct (rgl_selections_f LP (S m) (rl_sigs s2)) as [r1| |] eqn:Eq1; try discriminate. cbn [rg_bind] in Hq.
+      assert (Hr4 : rl_roomy s4).
+      { unfold rl_roomy in *. rewrite Hsig2 in Hr. cbn [rl_weight] in Hr. rewrite Hsig4, Hcur4, Hlim4, Hr2. lia. }
+      destruct (Hc5 Hr4 r1 eq_refl) as [He5 Hr5]. destruct (Hs5 He5) as (Hok5 & [pre5 Hpre5] & _).
+      pose proof (rl_sbr_ok _ _ Hsbr6 Hok5) as Hok6.
+      destruct (proj2 (rl_sim_expect TkRCurly SK_R_CURLY ltac:(discriminate)) s6 _ s9 E7 Hok6 Ht6 I) as [_ Hc7].
+      assert (Hr6 : rl_roomy s6).
+      { unfold rl_roomy in *. rewrite Hsig6. rewrite Hsig2 in Hr. cbn [rl_weight] in Hr.
+        rewrite Hpre5, rl_weight_app in Hr. rewrite Hr2 in *. lia. }
+      rewrite <- Hr5, <- Hsig6 in Hq. destruct (Hc7 Hr6 r Hq) as [He7 Hr7]. split; [congruence|exact Hr7].
+Qed.
+
+Theorem rl_selection_set_all : forall f M, rl_ss_spec (g_selection_set f) M.
+Proof.
+  induction f as [|f IH]; intros M.
+  - split; [apply rl_gen_selection_set|]. intros s u s' E. discriminate.
+  - cbn [g_selection_set]. apply rl_selection_set_body. exact IH.
+Qed.
+
+(* a selection set where the parser has just seen `{` *)
+Theorem rl_sim_selection_set f : rl_sim (rg_starts (rg_is TkLCurly)) (g_selection_set f) (rgl_selset LP).
+Proof.
+  split; [apply rl_gen_selection_set|]. intros s u s' E Hok Ht Hst. unfold rgl_selset.
+  apply (proj2 (rl_selection_set_all f (S (length (rl_sigs s)))) s u s' E Hok Ht). split; [unfold rl_len_lt; lia|exact Hst].
+Qed.
